@@ -375,6 +375,9 @@ def sink_shape(tree: ast.Module) -> dict:
         "close_calls_callback": "self._close_callback()" in c,
         "close_sets_closed": "self.closed = True" in c,
         "close_clears_mint": "self.mint_token = None" in c,
+        "close_on_hit_only": any(isinstance(st, ast.If) and ast.unparse(st.test) == "self._close_callback()"
+                                 and [ast.unparse(b) for b in st.body] == ["self.closed = True"] and not st.orelse
+                                 for st in _func(tree, "close", "_StickySink").body),
     }
 
 
@@ -504,17 +507,30 @@ def exempt_shape(tree: ast.Module, sticky: ast.Module) -> dict:
                         if s == "f'{prefix}/health'":
                             suffixes.append("/health")
                         elif s == "f'{prefix}/{_SESSION_ENDPOINT}'":
-                            suffixes.append("/{session_endpoint}")
+                            suffixes.append("/" + str(_const(_module_consts(_tree(HTTP_COMMON))["_SESSION_ENDPOINT"])))
                         else:
                             suffixes.append("?" + s)
     f = _func(sticky, "process_request", "_StickyMiddleware")
-    safe = False
+    kind = None
     for n in ast.walk(f):
         if isinstance(n, ast.For) and ast.unparse(n.iter) == "self._exempt_prefixes":
             for st in n.body:
-                if isinstance(st, ast.If):
-                    safe = ast.unparse(st.test) == "req.path == prefix or req.path.startswith(prefix + '/')"
-    return {"suffixes": suffixes, "compare_safe": safe}
+                if isinstance(st, ast.If) and [ast.unparse(b) for b in st.body] == ["return"]:
+                    t = ast.unparse(st.test)
+                    if t == "req.path == prefix or req.path.startswith(prefix + '/')":
+                        kind = "eq_or_subtree"
+                    elif t == "req.path.startswith(prefix)":
+                        kind = "startswith"
+                    elif t == "req.path == prefix":
+                        kind = "eq"
+        if isinstance(n, ast.If) and [ast.unparse(b) for b in n.body] == ["return"] \
+                and ast.unparse(n.test) == "req.path.startswith(self._exempt_prefixes)":
+            kind = "startswith"  # str.startswith(tuple)
+    if kind is None:
+        if any("_exempt_prefixes" in ast.unparse(n) for n in ast.walk(f) if isinstance(n, (ast.For, ast.If))):
+            raise Unrecognised("_StickyMiddleware.process_request: exempt-path test not recognised")
+        kind = "none"
+    return {"suffixes": suffixes, "kind": kind}
 
 
 # ------------------------------------------------------------------------------------------ emit
@@ -613,6 +629,8 @@ def endingPathsClose : Bool := {lean_bool(life["ends_close"])}
 def sinkOpenSetsMint : Bool := {lean_bool(sink["open_sets_mint"])}
 def sinkOpenResetsClosed : Bool := {lean_bool(sink["open_resets_closed"])}
 def sinkCloseSetsClosed : Bool := {lean_bool(sink["close_calls_callback"] and sink["close_sets_closed"])}
+/-- `if self._close_callback(): self.closed = True` — the close is announced only when the registry still had the entry -/
+def sinkCloseOnHitOnly : Bool := {lean_bool(sink["close_on_hit_only"])}
 def sinkCloseClearsMint : Bool := {lean_bool(sink["close_clears_mint"])}
 
 /-! `_StickyMiddleware.process_request` / `process_response` -/
@@ -640,7 +658,9 @@ def deleteClosesOnHit : Bool := {lean_bool(dl["closes"] and dl["uses_principal_k
 /-! factory wiring -/
 def exemptSuffixes : List String := {lean_strs(ex["suffixes"])}
 /-- exemption test is `req.path == prefix or req.path.startswith(prefix + "/")` -/
-def exemptCompareSafe : Bool := {lean_bool(ex["compare_safe"])}
+def exemptCompareSafe : Bool := {lean_bool(ex["kind"] == "eq_or_subtree")}
+/-- which test: "eq_or_subtree" (as above) | "startswith" (`req.path.startswith(prefix)`) | "eq" | "none" -/
+def exemptCompare : String := "{ex["kind"]}"
 
 /-! header names (`{HTTP_COMMON}`) -/
 def sessionHeader : String := "{hdr["SESSION_HEADER"]}"
